@@ -136,4 +136,14 @@ prop("C06",
      bounds={"quick": "depth <= 4 per class (16 class/family systems)", "thorough": "depth <= 6"},
      runs=[dict(name="h_own", sources=["harness/h_own.c"], profile="asan", args={"quick": ["--depth=4"], "thorough": ["--depth=6"]})],
      deadline={"quick": 240, "thorough": 3000})
+
+
+prop("C14",
+     level="exploration",
+     technique="bounded exhaustive enumeration (E2) of URL component tuples x protocol/service lookup outcomes against an assembled-components oracle, and of all short strings for robustness; lookups interposed, results freed at the next lookup, parser stack pre-filled",
+     rule="every component tuple in the accepted shape x 5 lookup outcomes: parse, compare all seven components, unparse, compare the canonical text, re-parse and compare again; "
+          "every string of length <= N over {a : / @ ? .} x 5 lookup outcomes: parse/unparse/re-parse under ASan; non-trivial = unambiguous tuples and strings containing a structural character",
+     bounds={"quick": "7680 tuples x 5 outcomes; strings N=5", "thorough": "same tuples; strings N=8 (2.0 M x 5)"},
+     runs=[dict(name="h_url", sources=["harness/h_url.c"], profile="asan", wraps=["getprotobyname", "getservbyname"], args={"quick": ["--N=5"], "thorough": ["--N=8"]})],
+     deadline={"quick": 200, "thorough": 2400})
 NOT_CLAIMED = {}
